@@ -3,6 +3,8 @@ package main
 import (
 	"fmt"
 	"go/types"
+	"regexp"
+	"sort"
 	"strconv"
 	"strings"
 
@@ -11,6 +13,7 @@ import (
 
 // Env evaluates contract expressions to SMT terms in a symbolic state.
 type Env struct {
+	allocArg bool // evaluating the argument of allocated(...)
 	fc      *FnCtx
 	pkg     string
 	vars    map[string]CVal
@@ -433,6 +436,11 @@ func (env *Env) fieldSel(base CVal, name string) (CVal, error) {
 				if isMapType(f.Type()) {
 					reg = fc.e.regionOfField(stT, f)
 				}
+				if _, isPtr := f.Type().Underlying().(*types.Pointer); isPtr && srt == SInt && env.allocArg && !strings.Contains(base.T.S, "q$") {
+					// heap well-formedness, as for a load in the body: a stored reference is nil or allocated
+					// (stated only where the contract asks: inside the argument of allocated(...))
+					fc.assumeAllocatedFrom(env.state(), Term{sel(a.S, base.T.S), srt}, a)
+				}
 				return CVal{Term{sel(a.S, base.T.S), srt}, withReg(f.Type(), reg)}, nil
 			}
 		}
@@ -662,19 +670,21 @@ func (env *Env) call(x *ECall) (CVal, error) {
 		if err != nil {
 			return CVal{}, err
 		}
-		al := fc.heapGet(env.old, "Alloc", arr(SInt, SBool))
-		cur := fc.heapGet(env.state(), "Alloc", arr(SInt, SBool))
+		al := fc.heapGet(env.old, "Alloc", SAlloc)
+		cur := fc.heapGet(env.state(), "Alloc", SAlloc)
 		if cur.S == al.S {
-			return CVal{Term{fmt.Sprintf("(and (> %s 0) (not (select %s %s)))", args[0].T.S, al.S, args[0].T.S), SBool}, nil}, nil
+			return CVal{Term{fmt.Sprintf("(and (> %s 0) (not %s))", args[0].T.S, allocd(al.S, args[0].T.S)), SBool}, nil}, nil
 		}
-		return CVal{Term{fmt.Sprintf("(and (> %s 0) (not (select %s %s)) (select %s %s))", args[0].T.S, al.S, args[0].T.S, cur.S, args[0].T.S), SBool}, nil}, nil
+		return CVal{Term{fmt.Sprintf("(and (> %s 0) (not %s) %s)", args[0].T.S, allocd(al.S, args[0].T.S), allocd(cur.S, args[0].T.S)), SBool}, nil}, nil
 	case "allocated":
+		env.allocArg = true
 		args, err := evalArgs()
+		env.allocArg = false
 		if err != nil {
 			return CVal{}, err
 		}
-		al := fc.heapGet(env.state(), "Alloc", arr(SInt, SBool))
-		return CVal{Term{fmt.Sprintf("(and (> %s 0) (select %s %s))", args[0].T.S, al.S, args[0].T.S), SBool}, nil}, nil
+		al := fc.heapGet(env.state(), "Alloc", SAlloc)
+		return CVal{Term{fmt.Sprintf("(and (> %s 0) %s)", args[0].T.S, allocd(al.S, args[0].T.S)), SBool}, nil}, nil
 	case "strof": // strof(x, "T"): the text of x's String method, T being its static type
 		if len(x.Args) != 2 {
 			return CVal{}, fmt.Errorf("strof(x, \"T\")")
@@ -990,6 +1000,11 @@ func (env *Env) callSpec(sf *SpecFunc, args []CVal) (CVal, error) {
 	rt, rs, err := fc.e.resolveType(sf.Result, specPkg(sf, env.pkg))
 	if err != nil {
 		return CVal{}, err
+	}
+	if sf.Opaque {
+		if v, ok, err := env.callPred(sf, args); ok || err != nil {
+			return v, err
+		}
 	}
 	if sf.Macro {
 		saved := env.bound
@@ -1315,4 +1330,94 @@ func regOrDefault(e *Engine, v CVal) string {
 		return e.regionDefault(v.GoT)
 	}
 	return ""
+}
+
+// predInfo: a `spec pred` as the solver sees it - a function symbol over the parameters and the heap
+// arrays the body reads, with one defining axiom. Two uses on equal arguments and equal arrays are
+// then equal by congruence, without the solver opening the (quantified) body.
+type predInfo struct {
+	fun    string
+	arrays []string // heap array names, in argument order
+	sorts  []string
+}
+
+var rePredTok = regexp.MustCompile(`[^\s()]+@e7\d{6}`)
+
+func (env *Env) callPred(sf *SpecFunc, args []CVal) (CVal, bool, error) {
+	fc := env.fc
+	pkg := specPkg(sf, env.pkg)
+	key := sf.Name
+	var ptypes []types.Type
+	var psorts []string
+	for i, p := range sf.Params {
+		pt, ps, err := fc.e.resolveType(p.Type, pkg)
+		if err != nil {
+			return CVal{}, false, err
+		}
+		if args[i].GoT != nil {
+			pt = args[i].GoT
+		}
+		if args[i].T.Sort != ps {
+			return CVal{}, false, nil // (nil literals and the like: expand as a macro)
+		}
+		ptypes, psorts = append(ptypes, pt), append(psorts, ps)
+		key += "|" + shortType(unwrapT(pt)) + "#" + regOfT(pt)
+	}
+	if fc.preds == nil {
+		fc.preds = map[string]*predInfo{}
+	}
+	pi := fc.preds[key]
+	if pi == nil {
+		probe := &State{heap: map[string]Term{}, epoch: 7000000 + len(fc.preds)}
+		penv := &Env{fc: fc, pkg: pkg, vars: map[string]CVal{}, bound: map[string]CVal{}, st: probe, old: probe}
+		var binders, names []string
+		for i, p := range sf.Params {
+			fc.nquant++
+			nm := fmt.Sprintf("q$P%s_%d", p.Name, fc.nquant)
+			penv.bound[p.Name] = CVal{Term{nm, psorts[i]}, ptypes[i]}
+			binders = append(binders, fmt.Sprintf("(%s %s)", nm, psorts[i]))
+			names = append(names, nm)
+		}
+		body, err := penv.evalBool(sf.Body)
+		if err != nil {
+			return CVal{}, false, err
+		}
+		pi = &predInfo{fun: fmt.Sprintf("pred$%s$%d", sf.Name, len(fc.preds))}
+		for n := range probe.heap {
+			pi.arrays = append(pi.arrays, n)
+		}
+		sort.Strings(pi.arrays)
+		repl := map[string]string{}
+		for _, n := range pi.arrays {
+			t := probe.heap[n]
+			pi.sorts = append(pi.sorts, t.Sort)
+			v := "q$H" + sanitize(n)
+			repl[t.S] = v
+			binders = append(binders, fmt.Sprintf("(%s %s)", v, t.Sort))
+			names = append(names, v)
+		}
+		bad := false
+		b := rePredTok.ReplaceAllStringFunc(body.S, func(tok string) string {
+			if v, ok := repl[tok]; ok {
+				return v
+			}
+			bad = true
+			return tok
+		})
+		if bad {
+			return CVal{}, false, fmt.Errorf("spec pred %s: the body reads state that is not a heap array", sf.Name)
+		}
+		fc.declareFun(pi.fun, append(append([]string{}, psorts...), pi.sorts...), SBool)
+		app := "(" + pi.fun + " " + strings.Join(names, " ") + ")"
+		fc.fact(fmt.Sprintf("(forall (%s) (! (= %s %s) :pattern (%s)))", strings.Join(binders, " "), app, b, app))
+		fc.preds[key] = pi
+	}
+	as := make([]string, 0, len(args)+len(pi.arrays))
+	for _, a := range args {
+		as = append(as, a.T.S)
+	}
+	for i, n := range pi.arrays {
+		as = append(as, fc.heapGet(env.state(), n, pi.sorts[i]).S)
+	}
+	return CVal{Term{"(" + pi.fun + " " + strings.Join(as, " ") + ")", SBool}, types.Typ[types.Bool]}, true, nil
 }
